@@ -192,6 +192,11 @@ class P:
         if tail is not None and tail[0] == "if" and tail[3] is None:
             stmts.append(("expr", tail))
             tail = None
+        if (tail is not None and tail[0] == "if" and tail[3] is not None and tail[3][0] == "block"
+                and tail[2][2] is None and tail[3][2] is None):
+            # `if c { …statements… } else { …statements… }` in last position: a statement, not a value
+            stmts.append(("expr", tail))
+            tail = None
         return ("block", stmts, tail)
 
     def stmt(self):
@@ -559,6 +564,9 @@ class Emit:
     """translates a parsed function body to a Lean term (string)."""
 
     def __init__(self, where, subst, consts, partial_fns, var_types, self_arrays):
+        self.state_vars = {}
+        self.pure_fns = {}
+        self.default_int = None
         self.where = where
         self.subst = subst            # rust expr text -> (lean name, type)
         self.consts = consts          # rust const name -> lean name
@@ -593,6 +601,8 @@ class Emit:
             return e[2]
         if k == "path" and len(e[1]) == 1:
             return self.vt.get(e[1][0])
+        if k == "field" and t in self.state_vars:
+            return self.vt.get(self.state_vars[t])
         if k == "mcall":
             if e[2] in ("len",):
                 return "usize"
@@ -637,6 +647,8 @@ class Emit:
             t = self.text(e)
             if t in self.self_arrays:
                 return self.self_arrays[t]
+            if t in self.state_vars:
+                return self.state_vars[t]
             fail("%s: unsupported field access %s" % (self.where, t))
         if k == "cast":
             inner = self.ex(e[1])
@@ -673,6 +685,8 @@ class Emit:
                 return "(%s).length" % self.ex(recv)
             if name == "take":
                 return "((%s).take %s)" % (self.ex(recv), self.ex(args[0]))
+            if name == "chunks":
+                return "(chunksOf %s %s)" % (self.ex(args[0]), self.atom(recv))
             if name == "next_power_of_two":
                 return "(nextPowerOfTwo %s)" % self.ex(recv)
             if name == "wrapping_add":
@@ -689,6 +703,10 @@ class Emit:
                 return self.ex(e[2][0])                       # newtype constructor erased
             if name == "vu64::encoded_len":
                 return "(Abyss.Vu64.encodedLen %s)" % self.ex(e[2][0])
+            if name == "u64::from_be_bytes" and len(e[2]) == 1:
+                return "(beVal %s)" % self.atom(e[2][0])
+            if e[1][-1] in self.pure_fns and len(e[1]) == 1:
+                return "(%s %s)" % (self.pure_fns[e[1][-1]], " ".join(self.atom(a) for a in e[2]))
             if name in self.partial_fns or e[1][-1] in self.partial_fns:
                 fail("%s: call of partial function %s outside tail position" % (self.where, name))
             if name == "std::mem::size_of_val":
@@ -698,6 +716,8 @@ class Emit:
             return "(" + ", ".join(self.ex(x) for x in e[1]) + ")"
         if k == "array":
             return "[" + ", ".join(self.ex(x) for x in e[1]) + "]"
+        if k == "repeat":
+            return "(List.replicate %s %s)" % (self.ex(e[2]), self.ex(e[1]))
         if k == "block":
             return "(" + self.seq(e[1], e[2], wrap=False) + ")"
         if k == "if":
@@ -710,8 +730,18 @@ class Emit:
         s = self.ex(e)
         return s
 
+    def var_name_text(self, t):
+        if t in self.state_vars:
+            return self.state_vars[t]
+        return lean_ident(t)
+
+    def var_name(self, e):
+        return self.var_name_text(self.text(e))
+
     def tailx(self, e, wrap):
         """expression in tail/return position of a (possibly partial) function."""
+        if e is not None and e[0] == "rawtail":
+            return e[1]
         if e is None:
             fail(self.where + ": missing tail expression")
         if e[0] == "panicx":
@@ -770,6 +800,8 @@ class Emit:
                 return self.seq(rest, tail, wrap)              # configured to be dropped
             rhs = self.ex(e)
             t = (ty if ty in WIDTH else None) or self.ty(e)
+            if t is None and e[0] == "num" and _mut:
+                t = self.default_int or None
             if pat[0] == "pvar" and t:
                 self.vt[pat[1]] = t
             if pat[0] == "ptuple" and e[0] == "block" and e[2] is not None and e[2][0] == "tuple":
@@ -788,6 +820,10 @@ class Emit:
             return "let %s := %s\n  %s" % (self.bind(pat), rhs, self.seq(rest, tail, wrap))
         if k == "assign":
             _, op, lhs, rhs = st
+            if self.text(lhs) in self.state_vars:
+                v = self.state_vars[self.text(lhs)]
+                new = self.ex(rhs) if op == "=" else self.ex(("bin", op[:-1], lhs, rhs))
+                return "let %s := %s\n  %s" % (v, new, self.seq(rest, tail, wrap))
             if lhs[0] != "path" or len(lhs[1]) != 1:
                 fail("%s: unsupported assignment target %s" % (self.where, self.text(lhs)))
             v = lhs[1][0]
@@ -803,6 +839,23 @@ class Emit:
                 if e[2] is not None:
                     fail(self.where + ": nested block with a value in statement position")
                 return self.seq(list(e[1]) + list(rest), tail, wrap)
+            if e[0] == "mcall" and e[2] == "copy_from_slice" and len(e[3]) == 1:
+                # `x.copy_from_slice(src)` with equal lengths: x := src
+                tgt = self.var_name(e[1])
+                return "let %s := %s\n  %s" % (tgt, self.ex(e[3][0]), self.seq(rest, tail, wrap))
+            if e[0] == "if" and e[3] is not None and e[3][0] == "block" and e[2][2] is None and e[3][2] is None:
+                # statement `if c { … } else { … }` that only assigns outer variables
+                vs = assigned_vars(e[2][1] + e[3][1], self)
+                if not vs:
+                    fail("%s: `if` statement without effect" % self.where)
+                names = [self.var_name_text(v) for v in vs]
+                tup = names[0] if len(names) == 1 else "(" + ", ".join(names) + ")"
+                saved = dict(self.vt)
+                a = self.seq(e[2][1], ("rawtail", tup), False)
+                self.vt = dict(saved)
+                b = self.seq(e[3][1], ("rawtail", tup), False)
+                self.vt = saved
+                return "let %s := if %s then (%s) else (%s)\n  %s" % (tup, self.cond(e[1]), a, b, self.seq(rest, tail, wrap))
             if e[0] == "if" and e[3] is None:
                 then = e[2]
                 # `if c { return e; }` / `if c { panic!() }`
@@ -819,6 +872,17 @@ class Emit:
                     return "if %s then none else\n  %s" % (self.cond(e[1]), self.seq(rest, tail, wrap))
                 fail("%s: unsupported `if` statement shape" % self.where)
             fail("%s: unsupported expression statement %s" % (self.where, e[0]))
+        if k == "for" and assigned_vars(st[3][1], self):
+            # loop that updates outer variables: a left fold over the iterated list
+            _, pat, it, body = st
+            vs = assigned_vars(body[1], self)
+            names = [self.var_name_text(v) for v in vs]
+            tup = names[0] if len(names) == 1 else "(" + ", ".join(names) + ")"
+            if body[2] is not None:
+                fail(self.where + ": `for` body with a value")
+            inner = self.seq(body[1], ("rawtail", tup), False)
+            return "let %s := (%s).foldl (fun %s %s =>\n    %s) %s\n  %s" % (
+                tup, self.iter(it), tup, self.bind(pat), inner, tup, self.seq(rest, tail, wrap))
         if k == "for":
             _, pat, it, body = st
             # shape: for PAT in ITER { if COND { return E; } }
@@ -851,6 +915,38 @@ class Emit:
         return self.ex(it)
 
 
+def assigned_vars(stmts, emit):
+    """names (rust text) of variables assigned (not declared) in a statement list, in order"""
+    out = []
+    declared = set()
+
+    def visit(sts):
+        for st in sts:
+            k = st[0]
+            if k == "let" and st[1][0] == "pvar":
+                declared.add(st[1][1])
+            elif k == "assign":
+                t = emit.text(st[2])
+                if t not in declared and t not in out:
+                    out.append(t)
+            elif k == "expr":
+                e = st[1]
+                if e[0] == "if":
+                    visit(e[2][1])
+                    if e[3] is not None and e[3][0] == "block":
+                        visit(e[3][1])
+                elif e[0] == "block":
+                    visit(e[1])
+                elif e[0] == "mcall" and e[2] == "copy_from_slice":
+                    t = emit.text(e[1])
+                    if t not in declared and t not in out:
+                        out.append(t)
+            elif k == "for":
+                visit(st[3][1])
+    visit(stmts)
+    return out
+
+
 def lean_ident(s):
     parts = s.strip("_").split("_")
     out = parts[0] + "".join(p.capitalize() for p in parts[1:])
@@ -881,7 +977,8 @@ P.expr = _expr_with_range
 
 # ----------------------------------------------------------------------------- driver
 def translate_fn(repo, feats, relpath, rust_name, lean_name, params, subst, consts, partial_fns,
-                 self_arrays=None, var_types=None, ret_tuple=None, pick_let=None):
+                 self_arrays=None, var_types=None, ret_tuple=None, pick_let=None, state_vars=None,
+                 pure_fns=None, default_int=None, result=None):
     where = "%s::%s" % (relpath, rust_name)
     src = strip_comments(open(os.path.join(repo, relpath)).read())
     item = find_item(src, "fn", rust_name, where)
@@ -936,12 +1033,17 @@ def translate_fn(repo, feats, relpath, rust_name, lean_name, params, subst, cons
             p.next()
         body = p.block()
     em = Emit(where, subst, consts, partial_fns, var_types or {}, self_arrays or {})
-    for (pn, pt) in params:
-        em.vt[pn] = pt
-    # first pass to learn whether the function is partial
     em2 = Emit(where, subst, consts, partial_fns, var_types or {}, self_arrays or {})
-    for (pn, pt) in params:
-        em2.vt[pn] = pt
+    for x in (em, em2):
+        x.state_vars = dict(state_vars or {})
+        x.pure_fns = dict(pure_fns or {})
+        x.default_int = default_int
+        for (pn, pt) in params:
+            x.vt[pn] = pt
+    if result is not None:
+        # the function returns () and its effect is the final value of a state variable
+        body = ("block", body[1], ("rawtail", result))
+    # first pass to learn whether the function is partial
     em2.seq(body[1], body[2], wrap=False)
     partial = em2.partial
     term = em.seq(body[1], body[2], wrap=partial)
@@ -1055,6 +1157,10 @@ def main():
         return partial
 
     fn("xorshift64s", L, "_xorshift64s", [("a", "u64")], "(a : Nat) : Nat")
+    # MyHasher::write(&mut self, bytes): the state `self.0` becomes parameter/result `h`
+    fn("hasherWrite", L, "write", [("h", "u64")], "(h : Nat) (bytes : List Nat) : Nat",
+       state_vars={"self.0": "h"}, pure_fns={"_xorshift64s": "xorshift64s"}, default_int="u64", result="h",
+       var_types={"b": "u8"})
     arrays = {"self.size_ary": "sizeAry", "self.free_list_offset": "freeListOffset"}
     sub_ps = {"piece_size.as_value()": ("pieceSize0", "u32"), "need_size.as_value()": ("needSize0", "u32")}
     fn("roundup", PI, "roundup", [("piece_size", "u32")], "(sizeAry : List Nat) (pieceSize0 : Nat) : Nat",
@@ -1087,6 +1193,9 @@ def main():
         fh.write("namespace Abyss.Gen\n\n")
         fh.write("/-- `u64::next_power_of_two` (for values whose result fits; 0 ↦ 1). -/\n")
         fh.write("def nextPowerOfTwo (x : Nat) : Nat := if x ≤ 1 then 1 else 2 ^ (Nat.log2 (x - 1) + 1)\n\n")
+        fh.write("/-- `slice.chunks(k)`: consecutive pieces of `k` elements, the last one may be shorter -/\n")
+        fh.write("def chunksOf (k : Nat) (l : List Nat) : List (List Nat) :=\n  (List.range ((l.length + k - 1) / k)).map fun i => (l.drop (i * k)).take k\n\n")
+        fh.write("/-- `u64::from_be_bytes` -/\ndef beVal (bs : List Nat) : Nat := bs.foldl (fun a b => a * 256 + b) 0\n\n")
         fh.write("/-- src/filedb/mod.rs `HashBucketsParam` -/\n")
         fh.write("inductive HashBucketsParam where\n  | bucketsSize (x : Nat)\n  | capacity (x : Nat)\n  | default\n  deriving Repr, DecidableEq\n\n")
         for lean, sig, partial, term, src, notes in F:
